@@ -86,7 +86,7 @@ theorem applyAt_pres (C : Ctx) (f : AS → R (AS × Up))
           simp only [hd, hr, bind, Except.bind, Bool.false_eq_true, if_false, Except.ok.injEq, Prod.mk.injEq, setNth] at h
           obtain ⟨rfl, rfl⟩ := h
           have ih := applyAt_pres C f hf rest a a' uc (by simpa using hd) hr
-          exact pres_key C n ps hid k v ml i a b a' uc hnil ih
+          exact pres_key C n ps hid k v ml i a b a' uc hnil ih.snd ih.sync
   | .val i :: rest, .mmap n ps hid k v ml, w', u, _, h => by
     simp only [applyAt] at h
     split at h
@@ -101,7 +101,7 @@ theorem applyAt_pres (C : Ctx) (f : AS → R (AS × Up))
           simp only [hd, hr, bind, Except.bind, Bool.false_eq_true, if_false, Except.ok.injEq, Prod.mk.injEq, setNth] at h
           obtain ⟨rfl, rfl⟩ := h
           have ih := applyAt_pres C f hf rest b b' uc (by simpa using hd) hr
-          exact pres_val C n ps hid k v ml i a b b' uc hnil ih
+          exact pres_val C n ps hid k v ml i a b b' uc hnil ih.snd ih.sync
   | .field _ :: _, .prim _, _, _, _, h | .field _ :: _, .nil, _, _, _, h | .field _ :: _, .oneof .., _, _, _, h
   | .field _ :: _, .arr .., _, _, _, h | .field _ :: _, .mmap .., _, _, _, h => by simp [applyAt] at h
   | .alt _ :: _, .prim _, _, _, _, h | .alt _ :: _, .nil, _, _, _, h | .alt _ :: _, .struct .., _, _, _, h
@@ -135,6 +135,8 @@ theorem applyOp_pres (C : Ctx) (op : Op) (w w' : AS) (u : Up) (hnd : C.isDictNod
   | copyFromSlice vs => exact copyFromSlice_pres C vs w w' u h
   | setKey i v => exact setKey_pres C i v w w' u h
   | setValue i v => exact setValue_pres C i v w w' u h
+  | setKeyObj i v => exact setKeyObj_pres C i v w w' u h
+  | setValueObj i v => exact setValueObj_pres C i v w w' u h
   | appendKV k v => exact appendKV_pres C k v w w' u h
 
 /-- **call_snd**: a public API call (navigation path + method, any arguments, CopyFrom included) on a
